@@ -144,6 +144,7 @@ def run(prog, rep):
     from rules import csvscan
     csvscan.check(prog, rep, 'R9.7')
     check_lookahead_fresh(prog, rep)
+    check_scanner_reads(prog, rep, 'R9.9')
 
     # ---------------------------------------------------------------- R9.3
     for cls in ('CCsvStringReader', 'CCsvStreamReader'):
@@ -1009,3 +1010,95 @@ def check_writer_width(prog, rep, cls):
     else:
         rep.finding('R9.3', site, g.loc(), '%s no longer compares the row width with the previous row and throws on a mismatch on every row: %s'
                     % (site, bad), func=g.id)
+
+
+# ---------------------------------------------------------------------------------------- R9.9 the stream scanner reads decoded text only
+def expr_key(f, e):
+    e = strip(e)
+    if e is None:
+        return '?'
+    k = e['k']
+    if k == 'MemberExpr':
+        return 'm:' + str(e.get('m'))
+    if k == 'DeclRefExpr':
+        return 'v:' + str(e.get('d'))
+    if 'cv' in e and k in ('IntegerLiteral', 'CharacterLiteral'):
+        return 'c:%s' % e['cv']
+    return k + ':' + str(e.get('op', '')) + '(' + ','.join(expr_key(f, c) for c in e.get('c', [])) + ')'
+
+
+def check_scanner_reads(prog, rep, rule='R9.9'):
+    """The CSV stream reader scans text that arrives chunk by chunk: what lies behind the last decoded character is not known yet (the
+    std::string terminator reads as NUL, so an unguarded look-ahead compiles, never faults and answers 'not LF' exactly when a CRLF pair
+    straddles two chunks). Every character read from the decoded buffer is therefore the one under the parse cursor - whose validity the
+    refill test establishes - or its index is compared with the buffer's size() by a condition that dominates the read."""
+    rep.rule(rule, 'CCsvStreamReader scanner: every character read from the decoded buffer is at the parse cursor, or at an index that a '
+                   'dominating condition compares with the buffer size (no look-ahead into text that has not been decoded yet)', floor=1)
+    n_reads = 0
+    for f in sorted(prog.funcs.values(), key=lambda g: g.id):
+        if f.body is None or f.cls != NS + 'CCsvStreamReader':
+            continue
+        ie = [g for g in prog.funcs.values() if g.q == NS + 'CCsvStreamReader::IsEnd' and g.body is not None]
+        CUR = BUF = None
+        if ie:
+            for x in ie[0].walk():
+                if x['k'] == 'BinaryOperator' and x.get('op') in ('>=', '=='):
+                    ms = [m.get('m') for m in ie[0].walk(x) if m['k'] == 'MemberExpr' and m.get('dk') == 'Field']
+                    if len(ms) >= 2:
+                        CUR, BUF = ms[0], ms[1]
+                        break
+        if CUR is None:
+            raise AnalysisBroken(rule + ': CCsvStreamReader::IsEnd() is no longer "cursor >= buffer.size() && decoder at end"')
+        from bsv.expr import resolve
+        for n in f.walk():
+            if n['k'] not in ('CXXOperatorCallExpr', 'CXXMemberCallExpr'):
+                continue
+            c = f.callee(n) or {}
+            if c.get('n') not in ('operator[]', 'at'):
+                continue
+            if n['k'] == 'CXXOperatorCallExpr':
+                obj, idx = strip(n['c'][1]), n['c'][2] if len(n['c']) > 2 else None
+            else:
+                me = strip(n['c'][0], casts=False)
+                obj, idx = strip(me['c'][0]) if me.get('c') else None, n['c'][1] if len(n['c']) > 1 else None
+            if obj is None or obj['k'] != 'MemberExpr' or obj.get('m') != BUF or idx is None:
+                continue
+            n_reads += 1
+            rep.touch(f)
+            ri = resolve(f, idx)
+            site = '%s|%s' % (f.name, f.loc(n))
+            if ri is not None and ri['k'] == 'MemberExpr' and ri.get('m') == CUR:
+                rep.ok(rule, site, sample={'read': 'character under the cursor', 'at': f.loc(n)})
+                continue
+            want = expr_key(f, ri)
+            guarded = False
+            p, cur = f.parent(n), n
+            while p is not None and not guarded:
+                conds = []
+                if p['k'] == 'IfStmt' and child(p, 'then') is not None and any(y is cur for y in [child(p, 'then')]):
+                    conds.append(child(p, 'cond'))
+                if p['k'] == 'BinaryOperator' and p.get('op') == '&&' and len(p['c']) == 2 and p['c'][1] is cur:
+                    conds.append(p['c'][0])
+                if p['k'] == 'ConditionalOperator' and len(p['c']) == 3 and p['c'][1] is cur:
+                    conds.append(p['c'][0])
+                if p['k'] in ('WhileStmt', 'ForStmt') and child(p, 'body') is cur:
+                    conds.append(child(p, 'cond'))
+                for c0 in conds:
+                    for x in f.walk(c0):
+                        if x['k'] == 'BinaryOperator' and x.get('op') in ('<', '>', '!=', '<=', '>='):
+                            a, b = x['c'][0], x['c'][1]
+                            if x.get('op') in ('>', '>='):
+                                a, b = b, a
+                            size_side = any(y['k'] == 'CXXMemberCallExpr' and (f.callee(y) or {}).get('n') in ('size', 'length') for y in f.walk(b))
+                            if size_side and x.get('op') in ('<', '>') and expr_key(f, resolve(f, a)) == want:
+                                guarded = True
+                cur, p = p, f.parent(p)
+            if guarded:
+                rep.ok(rule, site, sample={'read': 'guarded look-ahead', 'at': f.loc(n)})
+            else:
+                rep.finding(rule, '%s|unguarded read beside the cursor' % f.name, f.loc(n),
+                            'CCsvStreamReader::%s reads the decoded buffer at an index other than the parse cursor without comparing it with the '
+                            'buffer size: at the end of a decoded chunk it sees the string terminator instead of the next character (a CRLF pair '
+                            'split by the chunk boundary is not recognised)' % f.name, func=f.id)
+    if n_reads == 0:
+        raise AnalysisBroken(rule + ': no character read of the decoded buffer found in CCsvStreamReader')
